@@ -63,6 +63,11 @@ def matrix_inputs(q, R):
             V = R.copy()
             V[i, j] += d
             out.append(("p%g[%d%d]" % (d, i, j), V, False))
+    if np.all(np.abs(R - np.rint(R)) == 0):
+        out.append(("int64", np.rint(R).astype(np.int64), True))
+        out.append(("int8", np.rint(R).astype(np.int8), True))
+    out.append(("nested-list", R.tolist(), True))
+    out.append(("fortran", np.asfortranarray(R), True))
     out.append(("reflected", R @ np.diag([1.0, 1.0, -1.0]), False))
     out.append(("scaled1.001", R * 1.001, False))
     return out
@@ -85,7 +90,7 @@ def build_calls(mname, q, R):
         calls.append((tag, "u_to_euler", label, (lambda M=M: mod.u_to_euler(M)), not valid))
         calls.append((tag, "u_to_rod", label, (lambda M=M: mod.u_to_rod(M)), not valid))
         calls.append((tag, "u_to_ubi", label, (lambda M=M: mod.u_to_ubi(M, CELL)), not valid))
-        if mname == "tools":
+        if mname == "tools" and label != "nested-list":  # Umis is documented for numpy arrays and does not convert its arguments
             U0 = alph.quat_to_mat((2, 1, 0, -1))
             calls.append((tag, "Umis.2", label, (lambda M=M: xfab.symmetry.Umis(U0, M, 7)), not valid))
             calls.append((tag, "Umis.1", label, (lambda M=M: xfab.symmetry.Umis(M, U0, 4)), not valid))
